@@ -1,5 +1,76 @@
-From Coq Require Import List NArith.
-From FV Require Import Mem.Shard Mem.Cache.
-Theorem c18_placeholder : usage (init_shard 5) = 0%N.
-Proof. reflexivity. Qed.
-Print Assumptions c18_placeholder.
+(* C18  Handles pin what they reference and report outdatedness truthfully. *)
+From Coq Require Import List NArith Bool.
+From FV Require Import Mem.Shard Mem.ShardLemmas Mem.ShardInv Mem.ShardRefs Mem.ShardThms.
+Import ListNotations.
+Open Scope N_scope.
+
+(* key, value and weight behind a handle never change: the arena is append-only *)
+Theorem c18_stable : forall c ops s s' i,
+  run c s ops = Some s' -> (i < length (arena s))%nat -> get_rec s' i = get_rec s i.
+Proof. exact run_record_stable. Qed.
+Print Assumptions c18_stable.
+
+(* refs() = number of live handles to the record *)
+Theorem c18_refs : forall c cap ops s i,
+  good c -> run c (init_shard cap) ops = Some s -> (i < length (arena s))%nat ->
+  get_ref s i = handle_count s i.
+Proof.
+  intros c cap ops s i Hg H Hi. destruct (reach_inv c cap ops s Hg H) as [_ HR _].
+  rewrite handle_count_eq. apply (ri_refs s HR i Hi).
+Qed.
+Print Assumptions c18_refs.
+
+(* is_outdated() is true exactly when a lookup of the handle's key would not return this record *)
+Theorem c18_outdated : forall c cap ops s i,
+  good c -> run c (init_shard cap) ops = Some s ->
+  (is_outdated s i = true <-> lookup (rkey (get_rec s i)) (idx s) <> Some i).
+Proof.
+  intros c cap ops s i Hg H. destruct (reach_inv c cap ops s Hg H) as [HI _ _]. apply outdated_iff. assumption.
+Qed.
+Print Assumptions c18_outdated.
+
+(* LRU: a lookup pins; a pinned record stays pinned while it is referenced; victims are never pinned *)
+Theorem c18_lru_pin_lookup : forall c s k h i,
+  pins c = true -> lookup k (idx s) = Some i -> In i (pinned (get c s k h)).
+Proof. exact get_pins. Qed.
+Print Assumptions c18_lru_pin_lookup.
+
+Theorem c18_lru_pin_persists : forall c s o s' i,
+  step c s o = Some s' -> In i (pinned s) -> In i (pinned s') \/ get_ref s' i = 0.
+Proof. exact pinned_persists. Qed.
+Print Assumptions c18_lru_pin_persists.
+
+Theorem c18_lru_pin_not_victim : forall c target vs s s' k,
+  evict_oracle c target vs s = Some s' -> In k vs ->
+  exists i, lookup k (idx s) = Some i /\ ~ In i (pinned s).
+Proof.
+  intros c target vs s s' k H Hin. apply evict_oracle_spec in H. eapply victim_not_pinned; eauto.
+Qed.
+Print Assumptions c18_lru_pin_not_victim.
+
+(* nothing leaks: with no outstanding handle the next insert brings the shard within capacity *)
+Theorem c18_no_leak : forall c cap ops s k v w hsh low h vs s',
+  good c -> run c (init_shard cap) ops = Some s -> handles s = [] ->
+  insert c s k v w hsh low false h vs = Some s' ->
+  usage s' <= capacity s' \/ capacity s' < w.
+Proof.
+  intros c cap ops s k v w hsh low h vs s' Hg H Hh Hi. eapply insert_no_leak; eauto. eapply reach_inv; eauto.
+Qed.
+Print Assumptions c18_no_leak.
+
+(* the model of the pinned snapshot (touch leaks a reference; defect F8, fixed by c3392d4) *)
+Theorem c18_refs_refuted_F8 :
+  exists ops s i, run (mkCfg true false false true) (init_shard 2) ops = Some s /\
+                  (i < length (arena s))%nat /\ get_ref s i <> handle_count s i.
+Proof.
+  exists [OInsert 0 1 2 0 false false 1 []; ODrop 1; OTouch 0 2]. eexists. exists 0%nat.
+  split; [vm_compute; reflexivity|]. split; [vm_compute; repeat constructor|]. vm_compute. discriminate.
+Qed.
+Print Assumptions c18_refs_refuted_F8.
+
+Example c18_nonvacuous :
+  exists s, run (mkCfg true false false false) (init_shard 2)
+              [OInsert 0 1 1 0 false false 1 []; ODrop 1; OGet 0 2; OInsert 1 2 1 1 false false 3 []; ODrop 3;
+               OInsert 2 3 1 2 false false 4 [1]] = Some s
+            /\ pinned s = [0%nat] /\ findable s = [2; 0].
+Proof. eexists. split; [vm_compute; reflexivity|]. split; reflexivity. Qed.
